@@ -3,6 +3,8 @@ import HcipyVerif.Lemmas.SchedulerCount
 import HcipyVerif.Lemmas.SchedulerTile
 import HcipyVerif.Lemmas.SchedulerTerm
 import HcipyVerif.Lemmas.SchedulerHist
+import HcipyVerif.Lemmas.SchedulerStrong
+import HcipyVerif.Lemmas.SchedulerClock
 
 /-!
 # C20 — Time evolution fires each scheduled callback once, in order, at its time
@@ -31,9 +33,20 @@ Clause of the property → theorems
   `trace_consistent`, `intervals_tile` (first starts at the initial clock, last ends at the final
   clock, consecutive abut, each > eps, every instant covered exactly once),
   `callbacks_at_boundaries`, `tiling_reaches_target`, `evolveUntil_tiling`; whole histories: `history_conservation`.
-* *the clock ends at T*: `loop_clock`, `evolveUntil_spec`, `history_inv` (`.t_le`, `.lag`).
-* *backwards is refused*: `backwards_refused`, `history_backwards_noop`.
-* *whether or not callbacks remain queued*: `empty_queue_ok`, `empty_queue_raised_before_fix`.
+* *the clock ends at T*: `loop_clock`, `evolveUntil_spec`, `history_inv` (`.t_le`, `.lag`); exactly:
+  `final_clock_exact`, `final_clock_eq_target_iff`, `final_clock_below_target_possible`,
+  `loop_clock_end_any`, `clock_lag_any`.
+* *backwards is refused*: `backwards_refused`, `forwards_not_refused`, `history_backwards_noop`.
+* *whether or not callbacks remain queued*: `empty_queue_ok`, `empty_queue_exact`.
+
+Round 4 (sections at the end of the file): fuel independence (`loop_fuel_mono`, `runOps_fuel_mono`,
+`runOps_fuel_irrelevant`); exactly once for every history, only `InvQ` (`history_invQ`,
+`history_call_exactly_once`, `history_evolve_exactly_once`); divergence and necessity of `WF`
+(`diverges_zero_delay_reinsertion`, `order_needs_wf`); termination of histories
+(`history_terminates_if_progress`); the threshold as a double (`eps_decimal_bridge`);
+callbacks that read the clock — `loopC`/`stepOpC`/`runOpsC` are runs of `loop`/`stepOp`/`runOps`
+(`loopC_exists_kids`, `loopC_transfer`, `loopC_eq_loop_table`, `runOpsC_eq_runOps`); the hypotheses
+decided by the driver (`addsFromB_spec`, `noFuelOutB_spec`, `sortedB_spec`).
 
 Hypotheses used (each has a satisfiability `example` at the end of the file):
 * `Inv s`   — the queue is what `add_callback` builds (sorted, counters unique and below the
@@ -42,7 +55,8 @@ Hypotheses used (each has a satisfiability `example` at the end of the file):
 * progress  — `∀ e c ∈ kids e, e.time + δ ≤ c.1` with `0 < δ`, and `(kids e).length ≤ B`;
 * `AddsFrom (·.hz) kids fuel ops` — every `add_callback` of a history is for a time not before the
               largest target an accepted `evolve_until` was given so far (`(·.s.t)`: the clock);
-* `NoFuelOut kids fuel ops` — every `evolve_until` of the history returns.
+* `NoFuelOut kids fuel ops` — every `evolve_until` of the history returns;
+* `InvQ s`  — `Inv` without "nothing before the clock": reached by every history (`history_invQ`).
 -/
 set_option linter.unusedSimpArgs false
 set_option linter.unusedVariables false
@@ -130,7 +144,7 @@ theorem clock_at_callback {kids : Entry → List (Rat × Nat)} (hk : WF kids) (T
         intro e' clk h; unfold advance at h; split at h <;> simp at h
 
 theorem fired_lower_bound {kids : Entry → List (Rat × Nat)} (hk : WF kids) (T : Rat) (fuel : Nat)
-    (s : Sys) (hi : Inv s) (b : Entry) (hb : Below b s) :
+    (s : Sys) (hi : InvQ s) (b : Entry) (hb : Below b s) :
     ∀ f ∈ fired (loop kids T fuel s).trace, b.lt f := by
   induction fuel generalizing s with
   | zero => simp [loop, fired]
@@ -141,7 +155,7 @@ theorem fired_lower_bound {kids : Entry → List (Rat × Nat)} (hk : WF kids) (T
       by_cases ht : e.time < T
       · simp only [loop_cons_status hq ht, loop_cons_s hq ht, loop_cons_trace hq ht]
         simp only [fired_append, advance_fired, fired, List.nil_append, List.mem_cons]
-        obtain ⟨hi', -⟩ := next_inv hk hi hq
+        have hi' := next_invQ (kids := kids) hi hq
         have hbe : b.lt e := hb.1 e (by simp [hq])
         rintro f (rfl | hf)
         · exact hbe
@@ -150,9 +164,11 @@ theorem fired_lower_bound {kids : Entry → List (Rat × Nat)} (hk : WF kids) (T
       · rw [loop_stop (Or.inr ⟨e, rest, hq, ht⟩)]; simp [advance_fired]
 
 /-- **Order**: the executed callbacks are strictly increasing in `(time, insertion number)`:
-non-decreasing time, ties in insertion order — and therefore no callback runs twice. -/
+non-decreasing time, ties in insertion order — and therefore no callback runs twice.  Needs only
+the queue invariant `InvQ` (every history reaches it, `history_invQ`: entries may lie in the past)
+and `WF` (which is necessary: `order_needs_wf`). -/
 theorem fired_sorted {kids : Entry → List (Rat × Nat)} (hk : WF kids) (T : Rat) (fuel : Nat)
-    (s : Sys) (hi : Inv s) : Sorted (fired (loop kids T fuel s).trace) := by
+    (s : Sys) (hi : InvQ s) : Sorted (fired (loop kids T fuel s).trace) := by
   induction fuel generalizing s with
   | zero => simp [loop, fired, Sorted]
   | succ fuel ih =>
@@ -162,7 +178,7 @@ theorem fired_sorted {kids : Entry → List (Rat × Nat)} (hk : WF kids) (T : Ra
       by_cases ht : e.time < T
       · simp only [loop_cons_status hq ht, loop_cons_s hq ht, loop_cons_trace hq ht]
         simp only [fired_append, advance_fired, fired, List.nil_append]
-        obtain ⟨hi', -⟩ := next_inv hk hi hq
+        have hi' := next_invQ (kids := kids) hi hq
         have hs := hi.sorted; rw [hq] at hs
         unfold Sorted at hs ⊢; rw [List.pairwise_cons] at hs ⊢
         refine ⟨?_, ih _ hi'⟩
@@ -170,16 +186,20 @@ theorem fired_sorted {kids : Entry → List (Rat × Nat)} (hk : WF kids) (T : Ra
           (below_next hk hq ⟨hs.1, hi.ctr e (by simp [hq]), le_refl _⟩)
       · rw [loop_stop (Or.inr ⟨e, rest, hq, ht⟩)]; simp [advance_fired, Sorted]
 
-theorem fired_nodup {kids : Entry → List (Rat × Nat)} (hk : WF kids) (T : Rat) (fuel : Nat)
-    (s : Sys) (hi : Inv s) : (fired (loop kids T fuel s).trace).Nodup := by
-  have := fired_sorted hk T fuel s hi
-  unfold Sorted at this
-  exact List.Pairwise.imp (R := Entry.lt) (fun {a b} (h : a.lt b) (hab : a = b) => by subst hab; exact Entry.lt_irrefl _ h) this
+/-- **No callback runs twice** — whatever the callbacks schedule (no `WF`), from any state a history
+can reach (`InvQ`), whatever the status. -/
+theorem fired_nodup (kids : Entry → List (Rat × Nat)) (T : Rat) (fuel : Nat)
+    (s : Sys) (hi : InvQ s) : (fired (loop kids T fuel s).trace).Nodup := by
+  have hnd : (fired (loop kids T fuel s).trace ++ (loop kids T fuel s).s.queue).Nodup :=
+    (loop_perm kids T fuel s).nodup_iff.mpr (nodup_queue_spawnedQ hi _)
+  exact (List.nodup_append.mp hnd).1
 
 /-- **Exactly once, part 1 (nothing is lost)**: every queued entry due before the horizon is
-executed; every queued entry due at or after the horizon is still queued afterwards. -/
-theorem queued_fired_or_pending {kids : Entry → List (Rat × Nat)} (hk : WF kids) (T : Rat)
-    (fuel : Nat) (s : Sys) (hi : Inv s) (hok : (loop kids T fuel s).status = .ok) :
+executed; every queued entry due at or after the horizon is still queued afterwards.  Hypotheses:
+only the queue invariant `InvQ` (which every history reaches, `history_invQ`) and that the call
+returns — no `WF`, nothing about entries lying in the past, nothing about the clock. -/
+theorem queued_fired_or_pending (kids : Entry → List (Rat × Nat)) (T : Rat)
+    (fuel : Nat) (s : Sys) (hi : InvQ s) (hok : (loop kids T fuel s).status = .ok) :
     ∀ q ∈ s.queue, (q.time < T → q ∈ fired (loop kids T fuel s).trace) ∧
       (T ≤ q.time → q ∈ (loop kids T fuel s).s.queue) := by
   induction fuel generalizing s with
@@ -192,14 +212,13 @@ theorem queued_fired_or_pending {kids : Entry → List (Rat × Nat)} (hk : WF ki
       unfold Sorted at hs; rw [List.pairwise_cons] at hs
       by_cases ht : e.time < T
       · simp only [loop_cons_status hq ht, loop_cons_s hq ht, loop_cons_trace hq ht] at hok ⊢
-        obtain ⟨hi', -⟩ := next_inv hk hi hq
+        have hi' := next_invQ (kids := kids) hi hq
         have IH := ih _ hi' hok
         simp only [fired_append, advance_fired, fired, List.nil_append, List.mem_cons]
         intro q hq'
         rcases hq' with rfl | hq'
         · exact ⟨fun _ => Or.inl rfl, fun h => absurd ht (not_lt.mpr h)⟩
-        · have hm : q ∈ (next kids s q rest).queue → True := fun _ => trivial
-          have hmem : q ∈ (next kids s e rest).queue :=
+        · have hmem : q ∈ (next kids s e rest).queue :=
             mem_addAll_of_mem (by rw [advance_queue]; exact hq')
           exact ⟨fun h => Or.inr ((IH q hmem).1 h), fun h => (IH q hmem).2 h⟩
       · rw [loop_stop (Or.inr ⟨e, rest, hq, ht⟩)]
@@ -213,11 +232,14 @@ theorem queued_fired_or_pending {kids : Entry → List (Rat × Nat)} (hk : WF ki
         simp only [advance_queue, hq]; exact hq'
 
 /-- **Exactly once, part 2 (callbacks may schedule callbacks)**: a callback scheduled *by an
-executed callback* for a time before the horizon is executed too. -/
-theorem kids_fired {kids : Entry → List (Rat × Nat)} (hk : WF kids) (T : Rat)
-    (fuel : Nat) (s : Sys) (hi : Inv s) (hok : (loop kids T fuel s).status = .ok) :
+executed callback* for a time before the horizon — be it earlier than the parent's own time — is
+executed too, later in the run than its parent (`[e, f]` is a sublist of the executed list) and
+with a later insertion number.  Hypotheses: `InvQ` and that the call returns. -/
+theorem kids_fired (kids : Entry → List (Rat × Nat)) (T : Rat)
+    (fuel : Nat) (s : Sys) (hi : InvQ s) (hok : (loop kids T fuel s).status = .ok) :
     ∀ e ∈ fired (loop kids T fuel s).trace, ∀ c ∈ kids e, c.1 < T →
-      ∃ f ∈ fired (loop kids T fuel s).trace, f.time = c.1 ∧ f.id = c.2 ∧ e.lt f := by
+      ∃ f ∈ fired (loop kids T fuel s).trace, f.time = c.1 ∧ f.id = c.2 ∧ e.ctr < f.ctr ∧
+        [e, f].Sublist (fired (loop kids T fuel s).trace) := by
   induction fuel generalizing s with
   | zero => simp [loop] at hok
   | succ fuel ih =>
@@ -226,22 +248,37 @@ theorem kids_fired {kids : Entry → List (Rat × Nat)} (hk : WF kids) (T : Rat)
     | e :: rest =>
       by_cases ht : e.time < T
       · simp only [loop_cons_status hq ht, loop_cons_s hq ht, loop_cons_trace hq ht] at hok ⊢
-        obtain ⟨hi', -⟩ := next_inv hk hi hq
+        have hi' := next_invQ (kids := kids) hi hq
         have IH := ih _ hi' hok
-        have hs := hi.sorted; rw [hq] at hs
-        unfold Sorted at hs; rw [List.pairwise_cons] at hs
         simp only [fired_append, advance_fired, fired, List.nil_append, List.mem_cons]
         rintro e' (rfl | he') c hc hcT
         · -- the child was inserted into the queue the loop continues with
           obtain ⟨q, hqm, h1, h2, h3⟩ :=
             mem_addAll_of_kid (s := (advance { s with queue := rest } (e'.time - s.t)).1) hc
-          have hf := (queued_fired_or_pending hk T fuel _ hi' hok q hqm).1 (by rw [h1]; exact hcT)
-          refine ⟨q, Or.inr hf, h1, h2, ?_⟩
-          exact fired_lower_bound hk T fuel _ hi' e'
-            (below_next hk hq ⟨hs.1, hi.ctr e' (by simp [hq]), le_refl _⟩) q hf
-        · obtain ⟨f, hf, h1, h2, h3⟩ := IH e' he' c hc hcT
-          exact ⟨f, Or.inr hf, h1, h2, h3⟩
+          have hf := (queued_fired_or_pending kids T fuel _ hi' hok q hqm).1 (by rw [h1]; exact hcT)
+          refine ⟨q, Or.inr hf, h1, h2, ?_, ?_⟩
+          · rw [advance_ctr] at h3
+            have := hi.ctr e' (by simp [hq])
+            simp only at h3
+            omega
+          · exact List.Sublist.cons_cons _ (List.singleton_sublist.mpr hf)
+        · obtain ⟨f, hf, h1, h2, h3, h4⟩ := IH e' he' c hc hcT
+          exact ⟨f, Or.inr hf, h1, h2, h3, List.Sublist.cons _ h4⟩
       · rw [loop_stop (Or.inr ⟨e, rest, hq, ht⟩)]; simp [advance_fired]
+
+/-- With `WF` (children not before their parent's time) the child also comes after its parent in
+the `(time, counter)` order. -/
+theorem kids_fired_later {kids : Entry → List (Rat × Nat)} (hk : WF kids) (T : Rat)
+    (fuel : Nat) (s : Sys) (hi : InvQ s) (hok : (loop kids T fuel s).status = .ok) :
+    ∀ e ∈ fired (loop kids T fuel s).trace, ∀ c ∈ kids e, c.1 < T →
+      ∃ f ∈ fired (loop kids T fuel s).trace, f.time = c.1 ∧ f.id = c.2 ∧ e.lt f := by
+  intro e he c hc hcT
+  obtain ⟨f, hf, h1, h2, h3, -⟩ := kids_fired kids T fuel s hi hok e he c hc hcT
+  refine ⟨f, hf, h1, h2, ?_⟩
+  have := hk e c hc
+  rcases lt_or_eq_of_le this with h | h
+  · left; rw [h1]; exact h
+  · right; exact ⟨by rw [h1]; exact h, h3⟩
 
 /-- **Exactly once, part 3 (nothing is invented)**: whatever is executed was queued at the start
 or was scheduled by an executed callback. -/
@@ -266,11 +303,18 @@ theorem fired_origin {kids : Entry → List (Rat × Nat)} (T : Rat) (fuel : Nat)
           · right; exact ⟨e', Or.inr he', h⟩
       · rw [loop_stop (Or.inr ⟨e, rest, hq, ht⟩)]; simp [advance_fired]
 
-/-- **Moving backwards is refused**, and the state is left untouched. -/
+/-- **Moving backwards is refused**, nothing is integrated or executed, and the state (clock,
+queue, counter) is left untouched. -/
 theorem backwards_refused (kids : Entry → List (Rat × Nat)) (fuel : Nat) (s : Sys) (T : Rat)
     (h : T < s.t) : (evolveUntil kids fuel s T).status = .backwards ∧
-      (evolveUntil kids fuel s T).trace = [] := by
+      (evolveUntil kids fuel s T).trace = [] ∧ (evolveUntil kids fuel s T).s = s := by
   simp [evolveUntil, h]
+
+/-- … and conversely a call that is not backwards is never refused. -/
+theorem forwards_not_refused (kids : Entry → List (Rat × Nat)) (fuel : Nat) (s : Sys) (T : Rat)
+    (h : s.t ≤ T) : (evolveUntil kids fuel s T).status ≠ .backwards := by
+  simp only [evolveUntil, not_lt.mpr h, if_false]
+  rcases loop_status kids T fuel s with h' | h' <;> rw [h'] <;> decide
 
 /-- **No callbacks queued**: the evolution still succeeds and is a single integration (or none,
 below the threshold) — for every positive fuel. -/
@@ -281,12 +325,6 @@ theorem empty_queue_ok (kids : Entry → List (Rat × Nat)) (fuel : Nat) (s : Sy
   have : ¬ T < s.t := not_lt.mpr hT
   simp only [evolveUntil, this, if_false, loop_stop (Or.inl hq)]
   exact ⟨trivial, advance_lag s T hT⟩
-
-/-- The code before the repair raised on an empty queue (kept as a regression witness). -/
-theorem empty_queue_raised_before_fix (kids : Entry → List (Rat × Nat)) (fuel : Nat) (T : Rat)
-    (hT : 0 ≤ T) : (evolveUntilOld kids (fuel + 1) init T).status = .emptyQueue := by
-  have : ¬ T < 0 := not_lt.mpr hT
-  simp [evolveUntilOld, loopOld, init, this]
 
 /-- **Termination**: if callbacks schedule nothing, `queue.length + 1` iterations suffice. -/
 theorem terminates_without_reinsertion (T : Rat) (s : Sys) :
@@ -317,8 +355,8 @@ theorem evolveUntil_spec {kids : Entry → List (Rat × Nat)} (hk : WF kids) (T 
   have hn : ¬ T < s.t := not_lt.mpr hT
   simp only [evolveUntil, hn, if_false] at hok ⊢
   obtain ⟨h1, h2, h3, h4, h5⟩ := loop_clock hk T fuel s hi hT hok
-  exact ⟨h1, h2, h3, h4, h5, fired_sorted hk T fuel s hi, clock_at_callback hk T fuel s hi,
-    queued_fired_or_pending hk T fuel s hi hok⟩
+  exact ⟨h1, h2, h3, h4, h5, fired_sorted hk T fuel s hi.toQ, clock_at_callback hk T fuel s hi,
+    queued_fired_or_pending kids T fuel s hi.toQ hok⟩
 
 /-! ### Conservation: "exactly once" as counting -/
 
@@ -362,22 +400,21 @@ theorem evolveUntil_conservation (kids : Entry → List (Rat × Nat)) (fuel : Na
 /-- **Exactly once, as multiplicities.**  Of all entries that ever existed during the evolution
 (queued at the start or created by an executed callback), each one due before the horizon was
 executed with multiplicity exactly one and is no longer queued; each one due at or after the
-horizon is still queued and was not executed. -/
-theorem exactly_once_count {kids : Entry → List (Rat × Nat)} (hk : WF kids) (T : Rat) (fuel : Nat)
-    (s : Sys) (hi : Inv s) (hT : s.t ≤ T) (hok : (loop kids T fuel s).status = .ok) :
+horizon is still queued and was not executed.  Hypotheses: only `InvQ` (reached by every history,
+`history_invQ`) and that the call returns — `WF`, "nothing queued in the past" and `s.t ≤ T` are
+not needed. -/
+theorem exactly_once_count (kids : Entry → List (Rat × Nat)) (T : Rat) (fuel : Nat)
+    (s : Sys) (hi : InvQ s) (hok : (loop kids T fuel s).status = .ok) :
     ∀ c ∈ s.queue ++ spawned kids s.ctr (fired (loop kids T fuel s).trace),
       (c.time < T → (fired (loop kids T fuel s).trace).count c = 1 ∧ c ∉ (loop kids T fuel s).s.queue) ∧
       (T ≤ c.time → c ∈ (loop kids T fuel s).s.queue ∧ (fired (loop kids T fuel s).trace).count c = 0) := by
   intro c hc
   have hp := loop_perm kids T fuel s
   have hnd : (fired (loop kids T fuel s).trace ++ (loop kids T fuel s).s.queue).Nodup :=
-    hp.nodup_iff.mpr (nodup_queue_spawned hi _)
+    hp.nodup_iff.mpr (nodup_queue_spawnedQ hi _)
   have hmem := hp.mem_iff.mpr hc
-  obtain ⟨-, -, -, -, hq⟩ := loop_clock hk T fuel s hi hT hok
-  have hf : ∀ f ∈ fired (loop kids T fuel s).trace, f.time < T := by
-    intro f hf
-    obtain ⟨clk, hclk⟩ := mem_fired.mp hf
-    exact (clock_at_callback hk T fuel s hi f clk hclk).2.2
+  have hq := loop_queue_ge kids T fuel s hi hok
+  have hf := fired_lt_horizon kids T fuel s
   rw [List.nodup_append] at hnd
   constructor
   · intro hlt
@@ -593,8 +630,8 @@ theorem history_step_evolve {kids : Entry → List (Rat × Nat)} (hk : WF kids) 
       · simp only [fired_append]
         unfold Sorted
         rw [List.pairwise_append]
-        exact ⟨hi.sorted, fired_sorted hk T fuel h.s hi.inv, fun f hf g hg =>
-          fired_lower_bound hk T fuel h.s hi.inv f (hbelow f hf) g hg⟩
+        exact ⟨hi.sorted, fired_sorted hk T fuel h.s hi.inv.toQ, fun f hf g hg =>
+          fired_lower_bound hk T fuel h.s hi.inv.toQ f (hbelow f hf) g hg⟩
       · intro f hf
         simp only [fired_append, List.mem_append] at hf
         rcases hf with hf | hf
@@ -786,5 +823,459 @@ example : (fired (runOps demoKids 20 hinit demoOps).trace).map (fun e => (e.time
     (runOps demoKids 20 hinit demoOps).hz = 3 ∧
     (runOps demoKids 20 hinit demoOps).s.queue.map (fun e => (e.time, e.ctr, e.id)) = [(3, 6, 7)] := by
   decide +kernel
+
+/-! ### Round 4 — fuel independence -/
+
+/-- **Fuel independence.**  Once the fuel suffices (status ok), any larger fuel gives the very same
+run: status, final state and trace.  So every theorem with the hypothesis `status = ok` is a
+statement about *the* result of the call, not about a fuel-indexed family. -/
+theorem loop_fuel_mono (kids : Entry → List (Rat × Nat)) (T : Rat) (f : Nat) (s : Sys)
+    (hok : (loop kids T f s).status = .ok) : ∀ k, loop kids T (f + k) s = loop kids T f s :=
+  loop_fuel_mono' kids T f s hok
+
+/-- the same for `evolve_until` (a refused call does not look at the fuel at all) -/
+theorem evolveUntil_fuel_mono (kids : Entry → List (Rat × Nat)) (f : Nat) (s : Sys) (T : Rat)
+    (hf : (evolveUntil kids f s T).status ≠ .outOfFuel) :
+    ∀ k, evolveUntil kids (f + k) s T = evolveUntil kids f s T :=
+  evolveUntil_fuel_mono' kids f s T hf
+
+/-- **Fuel independence for histories**: if every `evolve_until` of a history returns with fuel `f`,
+then with any larger fuel the history is the same, step for step, and still every call returns. -/
+theorem runOps_fuel_mono (kids : Entry → List (Rat × Nat)) (f : Nat) (ops : List Op)
+    (hf : NoFuelOut kids f ops) :
+    ∀ k, runOps kids (f + k) hinit ops = runOps kids f hinit ops ∧ NoFuelOut kids (f + k) ops :=
+  runOps_fuel_mono' kids f ops hf
+
+/-- … hence any two sufficient fuels give the same history (the harness's `FUEL = 100000` is as good
+as any other sufficient value). -/
+theorem runOps_fuel_irrelevant (kids : Entry → List (Rat × Nat)) (f g : Nat) (ops : List Op)
+    (hf : NoFuelOut kids f ops) (hg : NoFuelOut kids g ops) :
+    runOps kids f hinit ops = runOps kids g hinit ops := by
+  rcases Nat.le_total f g with h | h
+  · obtain ⟨k, rfl⟩ := Nat.exists_eq_add_of_le h
+    exact ((runOps_fuel_mono kids f ops hf k).1).symm
+  · obtain ⟨k, rfl⟩ := Nat.exists_eq_add_of_le h
+    exact (runOps_fuel_mono kids g ops hg k).1
+
+/-! ### Round 4 — exactly once for *every* history (adds in the past, children in the past) -/
+
+/-- **Every** history of interface calls leaves a state with the queue invariant `InvQ` — no
+assumption on the times given to `add_callback`, on what callbacks schedule, or on the fuel. -/
+theorem history_invQ (kids : Entry → List (Rat × Nat)) (fuel : Nat) (ops : List Op) :
+    InvQ (runOps kids fuel hinit ops).s :=
+  history_invQ' kids fuel ops
+
+/-- **Per-call exactly once after any history.**  Whatever happened before (callbacks added for
+instants already passed, callbacks scheduling into the past, refused calls), an `evolve_until(T)`
+that returns executes each entry that is queued or gets created during the call and is due before
+`T` exactly once, and leaves exactly the others queued. -/
+theorem history_call_exactly_once (kids : Entry → List (Rat × Nat)) (fuel : Nat) (ops : List Op)
+    (T : Rat) (hok : (loop kids T fuel (runOps kids fuel hinit ops).s).status = .ok) :
+    let s := (runOps kids fuel hinit ops).s
+    ∀ c ∈ s.queue ++ spawned kids s.ctr (fired (loop kids T fuel s).trace),
+      (c.time < T → (fired (loop kids T fuel s).trace).count c = 1 ∧ c ∉ (loop kids T fuel s).s.queue) ∧
+      (T ≤ c.time → c ∈ (loop kids T fuel s).s.queue ∧ (fired (loop kids T fuel s).trace).count c = 0) :=
+  exactly_once_count kids T fuel _ (history_invQ kids fuel ops) hok
+
+/-- **Whole-history exactly once without `AddsFrom`/`WF`.**  After any history that ends with an
+accepted `evolve_until(T)` which returns: of all entries ever created, each one due before `T` has
+been executed exactly once over all evolutions and is not queued; whatever is queued is due at or
+after `T` and has never run; and every created entry is either executed once or queued once
+(never both, never neither). -/
+theorem history_evolve_exactly_once (kids : Entry → List (Rat × Nat)) (fuel : Nat) (ops : List Op)
+    (T : Rat) (hok : (evolveUntil kids fuel (runOps kids fuel hinit ops).s T).status = .ok) :
+    let H := runOps kids fuel hinit (ops ++ [Op.evolve T])
+    ∀ c ∈ H.created,
+      (c.time < T → (fired H.trace).count c = 1 ∧ c ∉ H.s.queue) ∧
+      (c ∈ H.s.queue → T ≤ c.time ∧ (fired H.trace).count c = 0) ∧
+      (fired H.trace).count c + H.s.queue.count c = 1 := by
+  intro H c hc
+  have hcons : HCons H := hcons_run kids fuel _
+  have hT : ¬ T < (runOps kids fuel hinit ops).s.t := by
+    intro h
+    rw [(backwards_refused kids fuel _ T h).1] at hok
+    cases hok
+  have hok' : (loop kids T fuel (runOps kids fuel hinit ops).s).status = .ok := by
+    simpa only [evolveUntil, hT, if_false] using hok
+  have hq : ∀ q ∈ H.s.queue, T ≤ q.time := by
+    have := loop_queue_ge kids T fuel _ (history_invQ kids fuel ops) hok'
+    simpa only [H, runOps_snoc, stepOp_forward kids fuel _ T hT] using this
+  have hmem := hcons.perm.mem_iff.mpr hc
+  have hsum : (fired H.trace).count c + H.s.queue.count c = 1 := by
+    rw [← List.count_append]
+    rw [hcons.nodup.count, if_pos hmem]
+  refine ⟨?_, ?_, hsum⟩
+  · intro hlt
+    have hnq : c ∉ H.s.queue := fun h => absurd (hq c h) (not_le.mpr hlt)
+    have := List.count_eq_zero.mpr hnq
+    exact ⟨by omega, hnq⟩
+  · intro hcq
+    have := List.count_pos_iff.mpr hcq
+    exact ⟨hq c hcq, by omega⟩
+
+/-! ### Round 4 — divergence: `status = ok` is essential, and so is `WF` -/
+
+/-- **A zero-delay self-re-insertion never returns**: with the callback behaviour `selfNow`
+("schedule yourself again for this very instant") a single callback due before the horizon
+exhausts *every* fuel, executing exactly `fuel` callbacks — the model's account of the real loop
+spinning forever (replayed on the real code with a callback that raises after N executions). -/
+theorem diverges_zero_delay_reinsertion :
+    ∀ fuel, (loop selfNow 2 fuel (addCallback init 1 0)).status = .outOfFuel ∧
+      (fired (loop selfNow 2 fuel (addCallback init 1 0)).trace).length = fuel :=
+  fun fuel => selfNow_diverges 2 fuel _ ⟨1, 0, 0⟩ (by simp [addCallback, init, insert]) (by norm_num)
+
+/-- the same from any state whose queue holds one callback due before the horizon -/
+theorem diverges_zero_delay_reinsertion_general (T : Rat) (fuel : Nat) (s : Sys) (e : Entry)
+    (hq : s.queue = [e]) (ht : e.time < T) : (loop selfNow T fuel s).status = .outOfFuel :=
+  (selfNow_diverges T fuel s e hq ht).1
+
+/-- … although `selfNow` and the start state satisfy every other hypothesis used in this file
+(`WF`, `Inv`): the hypothesis "the call returns" of the `hok` theorems cannot be dropped, and no
+fuel makes `NoFuelOut` true for the two-call history `add_callback(1, f); evolve_until(2)`. -/
+theorem selfNow_meets_other_hypotheses :
+    WF selfNow ∧ Inv (addCallback init 1 0) ∧
+      ¬ ∃ fuel, NoFuelOut selfNow fuel [Op.add 1 0, Op.evolve 2] := by
+  refine ⟨?_, inv_addCallback inv_init 1 0 (by simp [init]), ?_⟩
+  · intro e c hc; simp [selfNow] at hc; rw [hc]
+  · rintro ⟨fuel, h⟩
+    have := h [Op.add 1 0] 2 [] rfl
+    apply this
+    have hs : (runOps selfNow fuel hinit [Op.add 1 0]).s = addCallback init 1 0 := rfl
+    rw [hs]
+    have hT : ¬ (2 : Rat) < (addCallback init 1 0).t := by simp [addCallback, init]
+    simp only [evolveUntil, hT, if_false]
+    exact (diverges_zero_delay_reinsertion fuel).1
+
+/-- callback 0 schedules callback 1 half a time unit *before* its own time -/
+def pastKid : Entry → List (Rat × Nat) := fun e => if e.id = 0 then [(e.time - 1/2, 1)] else []
+
+/-- **`WF` is necessary** for the order clause and for the clock clause: with `pastKid` (all other
+hypotheses hold, the call returns) the child runs after its parent although it is due earlier, so
+the executed list is not in time order, and it runs with the clock *ahead* of its time.  (Exactly
+once still holds: `kids_fired`, `exactly_once_count` do not need `WF`.) -/
+theorem order_needs_wf :
+    Inv (addCallback init 1 0) ∧ ¬ WF pastKid ∧
+    (loop pastKid 2 5 (addCallback init 1 0)).status = .ok ∧
+    (fired (loop pastKid 2 5 (addCallback init 1 0)).trace).map (fun e => (e.time, e.id)) =
+      [(1, 0), (1/2, 1)] ∧
+    ¬ Sorted (fired (loop pastKid 2 5 (addCallback init 1 0)).trace) ∧
+    Event.fire ⟨1/2, 1, 1⟩ 1 ∈ (loop pastKid 2 5 (addCallback init 1 0)).trace := by
+  refine ⟨inv_addCallback inv_init 1 0 (by simp [init]), ?_, ?_⟩
+  · intro h
+    have := h ⟨1, 0, 0⟩ (1/2, 1) (by decide +kernel)
+    norm_num at this
+  · unfold Sorted
+    decide +kernel
+
+/-! ### Round 4 — `NoFuelOut` discharged: histories of progressing callbacks terminate -/
+
+/-- **Termination of whole histories.**  If every callback schedules its children at least `δ > 0`
+later than itself and at most `B` of them, then for every history some fuel makes every
+`evolve_until` return (`NoFuelOut`, the hypothesis of `history_inv` / `history_exactly_once`), and
+from that fuel on the history does not depend on the fuel. -/
+theorem history_terminates_if_progress {kids : Entry → List (Rat × Nat)} {δ : Rat} {B : Nat}
+    (hδ : 0 < δ) (hprog : ∀ e, ∀ c ∈ kids e, e.time + δ ≤ c.1) (hB : ∀ e, (kids e).length ≤ B)
+    (ops : List Op) :
+    ∃ fuel, NoFuelOut kids fuel ops ∧
+      ∀ k, runOps kids (fuel + k) hinit ops = runOps kids fuel hinit ops ∧
+        NoFuelOut kids (fuel + k) ops := by
+  obtain ⟨fuel, hf⟩ := exists_fuel_of_each kids (fun s T =>
+    ⟨_, terminates_if_progress hδ (fun e _ => hprog e) (fun e _ => hB e) s _ (Nat.lt_succ_self _)⟩) ops
+  exact ⟨fuel, hf, runOps_fuel_mono kids fuel ops hf⟩
+
+/-- the same from any criterion that makes each single evolution return (e.g. a weight,
+`terminates_of_weight`, which covers zero-delay scheduling along a DAG of callback ids) -/
+theorem history_terminates_of_each (kids : Entry → List (Rat × Nat))
+    (hterm : ∀ (s : Sys) (T : Rat), ∃ f, (loop kids T f s).status = .ok) (ops : List Op) :
+    ∃ fuel, NoFuelOut kids fuel ops :=
+  exists_fuel_of_each kids hterm ops
+
+/-- progress implies `WF`, so under progress and `AddsFrom` the history theorem needs no fuel
+hypothesis: some fuel yields `HInv`. -/
+theorem history_inv_of_progress {kids : Entry → List (Rat × Nat)} {δ : Rat} {B : Nat}
+    (hδ : 0 < δ) (hprog : ∀ e, ∀ c ∈ kids e, e.time + δ ≤ c.1) (hB : ∀ e, (kids e).length ≤ B)
+    (ops : List Op) (ha : ∀ fuel, AddsFrom (·.hz) kids fuel ops) :
+    ∃ fuel, HInv (runOps kids fuel hinit ops) := by
+  obtain ⟨fuel, hf, -⟩ := history_terminates_if_progress hδ hprog hB ops
+  have hk : WF kids := fun e c hc => by have := hprog e c hc; linarith
+  exact ⟨fuel, history_inv hk fuel ops (ha fuel) hf⟩
+
+/-- `demoKids` progresses (δ = 1, B = 1) at every callback, so `history_terminates_if_progress`
+applies to every history of it -/
+example (ops : List Op) : ∃ fuel, NoFuelOut demoKids fuel ops :=
+  (history_terminates_if_progress (δ := 1) (B := 1) (by norm_num)
+    (by intro e c hc; unfold demoKids at hc; split at hc <;> simp at hc; rw [hc])
+    (by intro e; unfold demoKids; split <;> simp) ops).imp fun _ h => h.1
+
+/-! ### Round 4 — the final clock, exactly -/
+
+/-- **The final clock, exactly** (no hypothesis beyond "the call returns").  Let `c` be the clock
+shown to the last callback of the run (the initial clock if none ran).  The evolution ends with
+the clock at `T` when the remaining stretch `T - c` exceeds the threshold, and at `c` otherwise
+(the stretch is coalesced away: "the clock ends at T" holds only up to `eps`). -/
+theorem final_clock_exact (kids : Entry → List (Rat × Nat)) (T : Rat) (fuel : Nat) (s : Sys)
+    (hok : (loop kids T fuel s).status = .ok) :
+    (loop kids T fuel s).s.t =
+      if eps < T - lastFireClock s.t (loop kids T fuel s).trace then T
+      else lastFireClock s.t (loop kids T fuel s).trace :=
+  loop_final_clock kids T fuel s hok
+
+/-- the clock ends exactly at `T` iff the last stretch is longer than the threshold or empty -/
+theorem final_clock_eq_target_iff (kids : Entry → List (Rat × Nat)) (T : Rat) (fuel : Nat) (s : Sys)
+    (hok : (loop kids T fuel s).status = .ok) :
+    (loop kids T fuel s).s.t = T ↔
+      (eps < T - lastFireClock s.t (loop kids T fuel s).trace ∨
+        lastFireClock s.t (loop kids T fuel s).trace = T) := by
+  rw [loop_final_clock kids T fuel s hok]
+  by_cases h : eps < T - lastFireClock s.t (loop kids T fuel s).trace
+  · simp [h]
+  · simp [h]
+
+/-- `eps < T - t_last → r.s.t = T` -/
+theorem final_clock_eq_target (kids : Entry → List (Rat × Nat)) (T : Rat) (fuel : Nat) (s : Sys)
+    (hok : (loop kids T fuel s).status = .ok)
+    (h : eps < T - lastFireClock s.t (loop kids T fuel s).trace) : (loop kids T fuel s).s.t = T :=
+  (final_clock_eq_target_iff kids T fuel s hok).mpr (Or.inl h)
+
+/-- with nothing queued, a target more than `eps` ahead is reached exactly -/
+theorem empty_queue_exact (kids : Entry → List (Rat × Nat)) (fuel : Nat) (s : Sys) (T : Rat)
+    (hq : s.queue = []) (hT : eps < T - s.t) : (evolveUntil kids (fuel + 1) s T).s.t = T := by
+  have : ¬ T < s.t := by
+    have := eps_pos
+    intro h; linarith
+  simp only [evolveUntil, this, if_false, loop_stop (Or.inl hq)]
+  unfold advance
+  rw [if_pos hT]; simp
+
+/-- **The clock can end strictly below the target**: `evolve_until(5·10⁻⁷)` on the fresh system
+returns normally and leaves the clock at `0` (the literal clause "the clock ends at T" is false;
+what holds is `loop_clock_end_any`/`final_clock_exact`). -/
+theorem final_clock_below_target_possible :
+    ∃ T, (evolveUntil noKids 1 init T).status = .ok ∧ (evolveUntil noKids 1 init T).s.t < T :=
+  ⟨1/2000000, by decide +kernel⟩
+
+/-- the clock never passes the target and, when the call returns, ends within `eps` below it — for
+any queue and any callbacks (entries and children may lie in the past); only `s.t ≤ T` is used -/
+theorem loop_clock_end_any (kids : Entry → List (Rat × Nat)) (T : Rat) (fuel : Nat) (s : Sys)
+    (hT : s.t ≤ T) : (loop kids T fuel s).s.t ≤ T ∧
+      ((loop kids T fuel s).status = .ok → T - (loop kids T fuel s).s.t ≤ eps) :=
+  loop_clock_end kids T fuel s hT
+
+/-- **Clock lag, hypothesis-free half**: every executed callback was due strictly before the horizon
+and ran with the clock at most `eps` *behind* its time — for any queue and any callbacks.  (That
+the clock is never *ahead* of the callback's time is the half that needs `Inv` and `WF`:
+`clock_at_callback`, `order_needs_wf`.) -/
+theorem clock_lag_any (kids : Entry → List (Rat × Nat)) (T : Rat) (fuel : Nat) (s : Sys) :
+    ∀ e clk, Event.fire e clk ∈ (loop kids T fuel s).trace → e.time - clk ≤ eps ∧ e.time < T := by
+  induction fuel generalizing s with
+  | zero => simp [loop]
+  | succ fuel ih =>
+    match hq : s.queue with
+    | [] => rw [loop_stop (Or.inl hq)]; intro e' clk h; unfold advance at h; split at h <;> simp at h
+    | e :: rest =>
+      by_cases ht : e.time < T
+      · simp only [loop_cons_trace hq ht]
+        intro e' clk h
+        simp only [List.mem_append, List.mem_cons] at h
+        rcases h with h | h | h
+        · unfold advance at h; split at h <;> simp at h
+        · injection h with e1 e2
+          subst e1 e2
+          refine ⟨?_, ht⟩
+          unfold advance; split
+          · have := eps_pos; simp; linarith
+          · rename_i h'; simp at h' ⊢; exact h'
+        · exact ih _ e' clk h
+      · rw [loop_stop (Or.inr ⟨e, rest, hq, ht⟩)]
+        intro e' clk h; unfold advance at h; split at h <;> simp at h
+
+/-! ### Round 4 — the threshold as a double; the `sorted` flag of the driver -/
+
+/-- **Float bridge for the threshold.**  `eps` is the exact value of the double `1e-6`
+(`4722366482869645 · 2⁻⁷²`, below `10⁻⁶`); no double lies strictly between the two, so for every
+double `dt` the code's test `dt > 1e-6` is the test against the decimal `10⁻⁶` of the property
+text. -/
+theorem eps_decimal_bridge (x : Rat) (hx : IsDouble x) : eps < x ↔ 1 / 1000000 < x := by
+  constructor
+  swap
+  · intro h; exact lt_trans eps_lt_decimal h
+  intro h
+  obtain ⟨m, k, hm, rfl⟩ := hx
+  have h2pos : (0 : Rat) < (2 : Rat) ^ k := zpow_pos (by norm_num) k
+  have hmpos : 0 < m := by
+    by_contra hneg
+    push Not at hneg
+    have : (m : Rat) * (2 : Rat) ^ k ≤ 0 :=
+      mul_nonpos_of_nonpos_of_nonneg (by exact_mod_cast hneg) (le_of_lt h2pos)
+    have := eps_pos
+    linarith
+  obtain ⟨n, rfl⟩ : ∃ n : Nat, m = n := ⟨m.toNat, by omega⟩
+  have hn : n < 2 ^ 53 := by simpa using hm
+  by_cases hk : -72 ≤ k
+  · obtain ⟨j, rfl⟩ : ∃ j : Nat, k = (j : Int) + (-72) := ⟨(k + 72).toNat, by omega⟩
+    rw [zpow_add₀ (by norm_num : (2 : Rat) ≠ 0), zpow_natCast] at h ⊢
+    have hN : ((n : Int) : Rat) * ((2 : Rat) ^ j * (2 : Rat) ^ (-72 : Int)) =
+        ((n * 2 ^ j : Nat) : Rat) / 4722366482869645213696 := by
+      push_cast; norm_num; ring
+    rw [hN] at h ⊢
+    have h1 : (4722366482869645 : Rat) < ((n * 2 ^ j : Nat) : Rat) := by
+      unfold eps at h
+      rw [div_lt_div_iff_of_pos_right (by norm_num)] at h
+      exact h
+    have h2 : 4722366482869645 < n * 2 ^ j := by exact_mod_cast h1
+    have h3 : (4722366482869646 : Rat) ≤ ((n * 2 ^ j : Nat) : Rat) := by exact_mod_cast h2
+    rw [lt_div_iff₀ (by norm_num)]
+    have h4 : (1 : Rat) / 1000000 * 4722366482869645213696 < 4722366482869646 := by norm_num
+    linarith
+  · exfalso
+    push Not at hk
+    have hk' : k ≤ -73 := by omega
+    have h1 : (2 : Rat) ^ k ≤ (2 : Rat) ^ (-73 : Int) := zpow_le_zpow_right₀ (by norm_num) hk'
+    have h2 : ((n : Int) : Rat) < 2 ^ 53 := by exact_mod_cast hn
+    have h3 : ((n : Int) : Rat) * (2 : Rat) ^ k < 2 ^ 53 * (2 : Rat) ^ (-73 : Int) :=
+      lt_of_le_of_lt (mul_le_mul_of_nonneg_left h1 (by positivity))
+        (mul_lt_mul_of_pos_right h2 (by positivity))
+    have h4 : (2 : Rat) ^ 53 * (2 : Rat) ^ (-73 : Int) < eps := by unfold eps; norm_num
+    linarith
+
+/-- the threshold is itself a double (mantissa `4722366482869645 < 2^53`, exponent `-72`) -/
+example : IsDouble eps := ⟨4722366482869645, -72, by norm_num, by unfold eps; norm_num⟩
+
+/-- … so `advance` integrates a double `dt` exactly when `dt` exceeds the decimal `10⁻⁶` -/
+theorem advance_decimal_bridge (s : Sys) (dt : Rat) (hd : IsDouble dt) :
+    advance s dt = if dt > 1 / 1000000 then ({ s with t := s.t + dt }, [Event.integrate dt])
+      else (s, []) := by
+  unfold advance
+  by_cases h : dt > eps
+  · rw [if_pos h, if_pos ((eps_decimal_bridge dt hd).mp h)]
+  · rw [if_neg h, if_neg (fun h' => h ((eps_decimal_bridge dt hd).mpr h'))]
+
+/-- the flag `sorted=` printed by the driver op `hist` (and compared with the real code's executed
+sequence) decides the `Sorted` of `fired_sorted` / `history_inv` -/
+theorem sortedB_spec (l : List Entry) : sortedB l = true ↔ Sorted l := sortedB_iff l
+
+/-! ### Round 4 — callbacks that read the clock (`add_callback(self.t + period, …)`, the docstring idiom)
+
+The clock a callback sees may rest up to `eps` below the callback's own time, so what a
+clock-reading callback schedules is not a function of its queue entry: `loopC` / `evolveUntilC` /
+`stepOpC` / `runOpsC` hand the clock to the callbacks (`kidsC clock e`).  The driver runs these on
+every history and compares them with the real code; the theorems below say that each such run IS a
+run of `loop` / `evolveUntil` / `runOps` — the objects of all theorems above — for an entry-only
+`kids` (the table of what each executed callback scheduled, `tableKids (fireTable …)`, which the
+driver also executes and checks: `same=`, `replay=`).  So every theorem above that holds for all
+`kids` holds of histories with clock-reading callbacks (`loopC_transfer`). -/
+
+/-- callbacks that ignore the clock: `loopC` is `loop` -/
+theorem loopC_const (kids : Entry → List (Rat × Nat)) (T : Rat) (fuel : Nat) (s : Sys) :
+    loopC (fun _ => kids) T fuel s = loop kids T fuel s := loopC_const' kids T fuel s
+
+/-- An entry-only `kids` that agrees with the clock-reading callbacks on every callback the run
+executes, at the clock it saw, produces the very same run (status, state, trace). -/
+theorem loopC_eq_loop_of_agree (kidsC : Rat → Entry → List (Rat × Nat)) (kids : Entry → List (Rat × Nat))
+    (T : Rat) (fuel : Nat) (s : Sys)
+    (h : ∀ e clk, Event.fire e clk ∈ (loopC kidsC T fuel s).trace → kids e = kidsC clk e) :
+    loop kids T fuel s = loopC kidsC T fuel s := loopC_eq_loop_of_agree' kidsC kids T fuel s h
+
+/-- **Every run with clock-reading callbacks is a run of `loop`** for some entry-only `kids`, from
+any state a history can reach (`InvQ`: no callback is executed twice, so "what it scheduled at the
+clock it saw" is a function of the entry). -/
+theorem loopC_exists_kids (kidsC : Rat → Entry → List (Rat × Nat)) (T : Rat) (fuel : Nat) (s : Sys)
+    (hi : InvQ s) : ∃ kids : Entry → List (Rat × Nat), loop kids T fuel s = loopC kidsC T fuel s :=
+  loopC_exists_kids' kidsC T fuel s hi
+
+/-- **Transfer**: whatever holds of the runs of `loop` for all entry-only `kids` holds of the run
+with clock-reading callbacks. -/
+theorem loopC_transfer (kidsC : Rat → Entry → List (Rat × Nat)) (T : Rat) (fuel : Nat) (s : Sys)
+    (hi : InvQ s) (P : Run → Prop) (hP : ∀ kids, P (loop kids T fuel s)) : P (loopC kidsC T fuel s) := by
+  obtain ⟨K, hK⟩ := loopC_exists_kids' kidsC T fuel s hi
+  rw [← hK]; exact hP K
+
+/-- exactly once (nothing is lost, nothing runs twice) with clock-reading callbacks — by transfer -/
+theorem clockC_exactly_once (kidsC : Rat → Entry → List (Rat × Nat)) (T : Rat) (fuel : Nat) (s : Sys)
+    (hi : InvQ s) (hok : (loopC kidsC T fuel s).status = .ok) :
+    (fired (loopC kidsC T fuel s).trace).Nodup ∧
+    ∀ q ∈ s.queue, (q.time < T → q ∈ fired (loopC kidsC T fuel s).trace) ∧
+      (T ≤ q.time → q ∈ (loopC kidsC T fuel s).s.queue) := by
+  revert hok
+  apply loopC_transfer kidsC T fuel s hi
+    (fun r => r.status = .ok → (fired r.trace).Nodup ∧
+      ∀ q ∈ s.queue, (q.time < T → q ∈ fired r.trace) ∧ (T ≤ q.time → q ∈ r.s.queue))
+  intro K hok
+  exact ⟨fired_nodup K T fuel s hi, queued_fired_or_pending K T fuel s hi hok⟩
+
+/-- the final clock, exactly, and the clock lag at every callback, with clock-reading callbacks -/
+theorem clockC_final_clock (kidsC : Rat → Entry → List (Rat × Nat)) (T : Rat) (fuel : Nat) (s : Sys)
+    (hi : InvQ s) (hok : (loopC kidsC T fuel s).status = .ok) :
+    (loopC kidsC T fuel s).s.t =
+      if eps < T - lastFireClock s.t (loopC kidsC T fuel s).trace then T
+      else lastFireClock s.t (loopC kidsC T fuel s).trace := by
+  revert hok
+  apply loopC_transfer kidsC T fuel s hi
+    (fun r => r.status = .ok → r.s.t = if eps < T - lastFireClock s.t r.trace then T else lastFireClock s.t r.trace)
+  intro K hok
+  exact final_clock_exact K T fuel s hok
+
+/-- **Replay by table** (what the driver executes and prints as `same=`): the table of what each
+executed callback scheduled — preceded by any rows `pre` of callbacks this run does not execute —
+read as entry-only callbacks makes `loop` reproduce the run. -/
+theorem loopC_eq_loop_table (kidsC : Rat → Entry → List (Rat × Nat)) (T : Rat) (fuel : Nat) (s : Sys)
+    (hi : InvQ s) (pre : List (Entry × List (Rat × Nat)))
+    (hpre : ∀ p ∈ pre, p.1 ∉ fired (loopC kidsC T fuel s).trace) :
+    loop (tableKids (pre ++ fireTable kidsC (loopC kidsC T fuel s).trace)) T fuel s =
+      loopC kidsC T fuel s := loopC_eq_loop_table' kidsC T fuel s hi pre hpre
+
+theorem evolveUntilC_eq_evolveUntil_table (kidsC : Rat → Entry → List (Rat × Nat)) (fuel : Nat) (s : Sys)
+    (T : Rat) (hi : InvQ s) :
+    evolveUntil (tableKids (fireTable kidsC (evolveUntilC kidsC fuel s T).trace)) fuel s T =
+      evolveUntilC kidsC fuel s T := by
+  have := evolveUntilC_eq_table' kidsC fuel s T hi [] (by simp)
+  simpa using this
+
+/-- every history with clock-reading callbacks keeps the invariant `InvC`: the queue invariant, and
+the callbacks in the table have been executed (not queued, counter used up) -/
+theorem history_invC (kidsC : Rat → Entry → List (Rat × Nat)) (fuel : Nat) (ops : List Op) :
+    InvC (runOpsC kidsC fuel hinitC ops) :=
+  (runOpsC_eq_runOps' kidsC fuel ops hinitC invC_init).2.2
+
+/-- **One call in a history**: `stepOpC` (run by the driver) advances the history by `stepOp` with
+the table; state and trace are those of the run with clock-reading callbacks. -/
+theorem stepOpC_evolve_run (kidsC : Rat → Entry → List (Rat × Nat)) (fuel : Nat) (ops : List Op) (T : Rat) :
+    (stepOpC kidsC fuel (runOpsC kidsC fuel hinitC ops) (.evolve T)).h.s =
+      (evolveUntilC kidsC fuel (runOpsC kidsC fuel hinitC ops).h.s T).s ∧
+    (stepOpC kidsC fuel (runOpsC kidsC fuel hinitC ops) (.evolve T)).h.trace =
+      (runOpsC kidsC fuel hinitC ops).h.trace ++
+        (evolveUntilC kidsC fuel (runOpsC kidsC fuel hinitC ops).h.s T).trace :=
+  stepOpC_evolve' kidsC fuel _ (history_invC kidsC fuel ops) T
+
+/-- **Whole histories** (what the driver checks as `replay=`): the history produced with
+clock-reading callbacks is the history `runOps` produces with ONE entry-only `kids` — the final
+table.  Hence `history_invQ`, `history_conservation`, `history_origin`,
+`history_call_exactly_once`, `history_evolve_exactly_once`, `runOps_fuel_mono` (all: for every
+`kids`) are statements about `(runOpsC kidsC fuel hinitC ops).h`. -/
+theorem runOpsC_eq_runOps (kidsC : Rat → Entry → List (Rat × Nat)) (fuel : Nat) (ops : List Op) :
+    runOps (tableKids (runOpsC kidsC fuel hinitC ops).tbl) fuel hinit ops =
+      (runOpsC kidsC fuel hinitC ops).h :=
+  (runOpsC_eq_runOps' kidsC fuel ops hinitC invC_init).2.1
+
+/-- **Reading the clock matters** (so `loopC` is not `loop` in disguise): two callbacks half a
+threshold apart, each re-inserting itself a quarter later.  Relative to the clock both children land
+at `5/4` (the second callback ran with the clock resting at `1`); relative to their own times at `5/4`
+and `5/4 + eps/2`.  The harness's directed `clockrel` histories are of this shape. -/
+theorem clock_reading_differs :
+    ((loopC everyQuarterOfClock (9/8) 3 twoClose).s.queue.map (·.time) = [5/4, 5/4]) ∧
+    ((loop everyQuarter (9/8) 3 twoClose).s.queue.map (·.time) = [5/4, 5/4 + eps / 2]) := by
+  decide +kernel
+
+/-! ### Round 4 — the hypotheses of the history theorems are decided by the driver -/
+
+/-- the flags `addsfrom_hz=` / `addsfrom_t=` printed by the driver op `hist` (and compared with the
+harness's own classification of the real history) decide the hypothesis `AddsFrom` of
+`history_inv` / `history_inv_weak` / `history_exactly_once` -/
+theorem addsFromB_spec (f : Hist → Rat) (kids : Entry → List (Rat × Nat)) (fuel : Nat) (ops : List Op) :
+    addsFromB f kids fuel hinit ops = true ↔ AddsFrom f kids fuel ops := addsFromB_iff f kids fuel ops
+
+/-- the flag `nofuelout=` decides the hypothesis `NoFuelOut` -/
+theorem noFuelOutB_spec (kids : Entry → List (Rat × Nat)) (fuel : Nat) (ops : List Op) :
+    noFuelOutB kids fuel hinit ops = true ↔ NoFuelOut kids fuel ops := noFuelOutB_iff kids fuel ops
 
 end HcipyVerif.Scheduler
